@@ -495,6 +495,15 @@ pub fn history(seed: u64, idx: u64) -> Case {
                 // ------------------------------------------------ resize: release idle clients
                 93..=96 => {
                     pool.resize(0);
+                    // every client that is out is now owed to the shrink: a take in this state must leave the
+                    // pool (and the registry) just like any other take
+                    if !held.is_empty() && rng.chance(1, 2) {
+                        let i = rng.usize_below(held.len());
+                        let (c, k) = held.swap_remove(i);
+                        log.push(format!("take conn {} while the pool is shrunk to 0", k));
+                        taken.push((deadpool_postgres::Client::take(c), k));
+                        *counters.entry("takes_under_shrink".into()).or_insert(0) += 1;
+                    }
                     pool.resize(max_size);
                     for k in idle.drain(..) {
                         let _ = dead.insert(k);
